@@ -488,7 +488,7 @@ type entryCase struct {
 	vals string
 }
 
-var entryWindow = map[string][]entryCase{}
+var entryWindow = map[reflect.Type][]entryCase{}
 
 func entryProbe(s *Sink, name string, t reflect.Type, fs []LField, buf []byte, cl, vals string) {
 	if cl == "panic" {
@@ -534,11 +534,11 @@ func entryProbe(s *Sink, name string, t reflect.Type, fs []LField, buf []byte, c
 		return codec.UnmarshalArrayElement(append([]byte{}, buf...), reflect.New(reflect.SliceOf(t)).Interface())
 	})
 
-	w := append(entryWindow[name], entryCase{append([]byte{}, buf...), cl, vals})
+	w := append(entryWindow[t], entryCase{append([]byte{}, buf...), cl, vals})
 	if len(w) > 4 {
 		w = w[len(w)-4:]
 	}
-	entryWindow[name] = w
+	entryWindow[t] = w
 	for k := 0; k <= len(w); k += len(w) { // the empty list and the window
 		sub := w[:k]
 		var bufs [][]byte
